@@ -22,7 +22,9 @@ ID = "C09"
 LEVEL = "fault_enumeration"
 RULE = ("hist: Hypothesis histories (<=25 steps) of add/remove for 3 handlers x 2-3 expressions interleaved with graph "
         "mutations, owner collection and gc; fail: for each generated (graph, expression) every walk position k gets a bad "
-        "object (all k enumerated) and the failing observe() is compared with the state before; non-trivial = history with "
+        "object (all k enumerated) and the failing observe() is compared with the state before; failrem: the same for a "
+        "REMOVAL that raises part-way (bad object inserted after registration); optional: histories concentrated on a trait "
+        "observed (optionally or as a required name) before/after add_trait, re-added or added twice; non-trivial = history with "
         ">=2 registrations interleaved with a mutation, a removal, a collection, or a failing call at position k>=2; "
         "distinct by digest")
 ASSUMPTIONS = ["dispatch='same' only (ui/new dispatch need an event loop / threads whose schedule the harness does not own)",
